@@ -106,11 +106,26 @@ RE_C_FOR = re.compile(r"^for \(int (\w+) = 0; (\w+) < (.*); \+\+(\w+)\)$")
 RE_C_CATCH = re.compile(r"^catch \((.*)\)$")
 
 
-def fw_items(cpp, marks):
+RE_C_ASSIGN = re.compile(r"^(?:([A-Za-z_][\w<>:]*) )?([A-Za-z_]\w*) = (.*);$")
+C_DEFAULTS = {"0", "0.0", "false", '""'}
+
+
+def norm_val(s):
+    return re.sub(r"[\s()]", "", s)
+
+
+_SPEC = {"vocab": set(), "vars": set()}
+
+
+def fw_items(cpp, marks, spec=None):
     """-> (items, problem): items = sorted list of (path, item) for every control header and every
     line carrying one of the numbers `marks`, `continue;`, `break;`, `return;`; path = tuple of steps
-    ("sec", name) / ("chain", negated conditions, own condition | None) / ("blk", what)"""
+    ("sec", name) / ("chain", negated conditions, own condition | None) / ("blk", what).
+    spec (third round): {"vocab": set of C++ lines - every occurrence is an item ("line", text);
+                         "vars": names - every line `[T ]name = E;` is an item ("asg", name, norm E, T | None)}"""
     items = []
+    global _SPEC
+    _SPEC = spec or {"vocab": set(), "vars": set()}
     for name, hdr, body in sections(cpp):
         tree = c_read(body)
         if tree is None:
@@ -118,6 +133,13 @@ def fw_items(cpp, marks):
         if name not in ("setup", "loop"):
             items.append(((("sec", name),), ("hdr", "def")))
         _walk_c(tree, (("sec", name),), items, marks)
+    if _SPEC["vars"]:
+        # a first assignment at the top level of the script becomes a file-scope definition `T name = E;` (initialised
+        # before setup() runs): it stands for the statement at the top level of setup()
+        for l in cpp.splitlines():
+            ma = RE_C_ASSIGN.match(l) if l[:1] not in (" ", "\t", "") else None
+            if ma and ma.group(1) and ma.group(2) in _SPEC["vars"]:
+                items.append(((("sec", "setup"),), ("asg", ma.group(2), norm_val(ma.group(3)), ma.group(1))))
     return sorted(items, key=repr), None
 
 
@@ -127,7 +149,12 @@ def _walk_c(trees, pre, items, marks):
         if t[0] == 0:
             chain = ()
             s = t[1]
-            if s in ("continue;", "break;", "return;"):
+            ma = RE_C_ASSIGN.match(s) if _SPEC["vars"] else None
+            if s in _SPEC["vocab"]:
+                items.append((pre, ("line", s)))
+            elif ma and ma.group(2) in _SPEC["vars"]:
+                items.append((pre, ("asg", ma.group(2), norm_val(ma.group(3)), ma.group(1))))
+            elif s in ("continue;", "break;", "return;"):
                 items.append((pre, ("jump", s)))
             elif MARK_LINE.match(s):
                 for tok in re.findall(r"(?<![\w.])\d+(?![\w.])", s):
@@ -170,6 +197,7 @@ def _walk_c(trees, pre, items, marks):
         _walk_c(body, pre + (step,), items, marks)
 
 
+_REPLINES = {}
 RE_PY_EXCEPT = re.compile(r"^except(?:\s+([\w.]+))?(?:\s+as\s+(\w+))?\s*:$")
 RE_PY_FOR = re.compile(r"^for\s+(\w+)\s+in\s+range\(\s*(.*?)\s*\)\s*:$")
 RE_PY_DEF = re.compile(r"^def\s+(\w+)\s*\(")
@@ -181,9 +209,12 @@ def yields_node(n):
     return n[1] in ("if", "try", "while", "for")
 
 
-def py_items(tops):
-    """the same items computed from the script skeleton (c07_gen trees): what Python means"""
+def py_items(tops, replines=None):
+    """the same items computed from the script skeleton (c07_gen trees): what Python means.
+    replines: canonical statement text -> the C++ lines the statement alone is translated to (reference run)"""
     items = []
+    global _REPLINES
+    _REPLINES = replines or {}
     for t in tops:
         if t[0] == "chain":
             _walk_py(t[1], (("sec", "setup"),), items)
@@ -204,6 +235,11 @@ def _walk_py(nodes, pre, items):
             meta = n[2]
             if meta[0] == "mark":
                 items.append((pre, ("stmt", meta[1])))
+            elif meta[0] == "rep":
+                for cl in _REPLINES.get(meta[1], []):
+                    items.append((pre, ("line", cl)))
+            elif meta[0] == "asg":
+                items.append((pre, ("asg", meta[1], meta[2], None)))
             elif meta[0] == "continue":
                 items.append((pre, ("jump", "continue;" if meta[1] == "loop" else "return;")))
             elif meta[0] == "jump":
@@ -333,3 +369,39 @@ def ir_stats(trees, acc):
                 acc["empty_handler"] = acc.get("empty_handler", 0) + (0 if b else 1)
                 ir_stats(b, acc)
     return acc
+
+
+def items_diff(want, got):
+    """-> (missing, extra): multiset difference with the rules of the assignment items: a script assignment
+    ("asg", name, value | None, None) is matched by a firmware line ("asg", name, value', T | None) under the same path when
+    value is None (any right-hand side) or value == value' - a declaration `T name = E;` counts like `name = E;`; a firmware
+    assignment left over is tolerated iff its right-hand side is the default of a C++ type (a promotion placeholder:
+    `T name = <default>;` in front of the block, or the assignment it becomes when the name is promoted once more)"""
+    pool = {}
+    for x in got:
+        it = x[1]
+        k = (x[0], it[:3]) if it[0] == "asg" else (x[0], it)
+        pool.setdefault(repr(k), []).append(x)
+    missing = []
+    wild = []
+    for x in want:
+        it = x[1]
+        if it[0] == "asg" and it[2] is None:
+            wild.append(x)
+            continue
+        k = (x[0], it[:3]) if it[0] == "asg" else (x[0], it)
+        lst = pool.get(repr(k))
+        if lst:
+            lst.pop()
+        else:
+            missing.append(x)
+    rest = [x for lst in pool.values() for x in lst]
+    for x in wild:                                   # any right-hand side: prefer a non-default one
+        cands = [y for y in rest if y[0] == x[0] and y[1][0] == "asg" and y[1][1] == x[1][1]]
+        cands.sort(key=lambda y: y[1][2] in C_DEFAULTS)
+        if cands:
+            rest.remove(cands[0])
+        else:
+            missing.append(x)
+    extra = [y for y in rest if not (y[1][0] == "asg" and (y[1][2] in C_DEFAULTS or y[1][2].endswith(">")))]
+    return missing, extra
